@@ -365,6 +365,13 @@ def decide(pid, tier, seed, t0):
     findings, fixed = load_known()
     findings = [f for f in findings if f["property"] == pid]
     thorough = tier == "thorough"
+    # obligations carrying one of these tags are in the property's dependency cone
+    eff = set([pid] + P.get("also_tags", []))
+
+    def in_cone(tags):
+        if isinstance(tags, str):
+            tags = [t for t in tags.split(",") if t]
+        return bool(eff & set(tags))
 
     units = list(P.get("verus", []))
     jobs = []
@@ -401,7 +408,7 @@ def decide(pid, tier, seed, t0):
         if kind == "vac":
             # every extracted function must be REJECTED when `assert(false)` is placed at its entry
             for f in extracted:
-                if pid not in f["tags"].split(","):
+                if not in_cone(f["tags"]):
                     continue
                 vac_total += 1
                 names = [n for n in r["funcs"] if n.endswith("::" + f["fn"])]
@@ -420,7 +427,7 @@ def decide(pid, tier, seed, t0):
         checker_cmds.append(r["cmd"])
         trusted.update(scan_trusted(r["gen"]))
         # relevant functions: extracted functions tagged with this property + shim/lemma functions (always)
-        rel_fn_ids = {f["id"] for f in extracted if pid in f["tags"].split(",")}
+        rel_fn_ids = {f["id"] for f in extracted if in_cone(f["tags"])}
         for f in extracted:
             if f["id"] in rel_fn_ids:
                 fn_under_contract.append({
@@ -432,7 +439,7 @@ def decide(pid, tier, seed, t0):
         # obligations = verified + failed queries of functions in the cone (extracted tagged fns, plus every
         # proof/lemma/shim wrapper function of the unit: they ground the contracts)
         extracted_names = {f["fn"]: f for f in extracted}
-        bad_fns = {f["fn"] for f in r["fails"] if pid in f["tags"] and not f["message"].startswith("recommendation")}
+        bad_fns = {f["fn"] for f in r["fails"] if in_cone(f["tags"]) and not f["message"].startswith("recommendation")}
         bad_fns |= {rl.get("fn") for rl in r["rlimits"]}
         for name, fr in r["funcs"].items():
             short = name.split("::")[-1]
@@ -446,14 +453,14 @@ def decide(pid, tier, seed, t0):
         # count spec clauses carrying this property's tag (finer-grained than queries; reported separately)
         for ln in open(r["gen"]).read().split("\n"):
             mm = re.search(r"//\s*\[([A-Z0-9, ]+)\]", ln)
-            if mm and pid in [t.strip() for t in mm.group(1).split(",")]:
+            if mm and in_cone([t.strip() for t in mm.group(1).split(",")]):
                 clause_count += 1
         for rl in r["rlimits"]:
             tg = rl.get("tags", "")
-            if rl.get("fn") is None or pid in tg.split(","):
+            if rl.get("fn") is None or in_cone(tg):
                 inconclusive.append("rlimit exceeded in %s::%s" % (crate, rl.get("fn")))
         for f in r["fails"]:
-            if pid not in f["tags"]:
+            if not in_cone(f["tags"]):
                 continue
             if f["message"].startswith("recommendation not met"):
                 continue
